@@ -45,6 +45,24 @@ def c03_shapes(tier):
         out.append((st, 1, 1, 4, 0, 0, 0, 1))
     return out
 
+def c11_shapes(tier):
+    # (kind, load-for-resource, steps before, steps after, finally changed, threshold-1, order deviations, full chain)
+    kinds = (0, 1, 2, 4, 5, 6, 7)
+    out = []
+    if tier == 'quick':
+        for k in kinds:
+            out.append((k, 1, 1, 1, 1, 0, 1, 0))
+            out.append((k, 0, 1, 1, 1, 0, 1, 0))
+        out += [(0, 1, 2, 1, 0, 1, 1, 0), (4, 1, 2, 1, 0, 1, 1, 0), (7, 1, 2, 1, 0, 0, 1, 0), (1, 1, 1, 1, 0, 0, 1, 1)]
+        return out
+    for k in kinds:
+        for pr in (0, 1):
+            out.append((k, pr, 2, 2, 1, 0, 1, 0))
+            out.append((k, pr, 1, 1, 1, 0, 2, 0))
+        out.append((k, 1, 1, 1, 0, 0, 1, 1))
+    out += [(0, 1, 3, 2, 0, 1, 1, 0), (4, 0, 3, 2, 0, 1, 1, 0), (7, 1, 3, 2, 1, 0, 1, 0), (7, 0, 2, 3, 0, 0, 1, 0)]
+    return out
+
 def c05h_shapes(tier):
     # (param mode, values, override, ops, -,-,-, full chain)
     if tier == 'quick':
@@ -235,6 +253,19 @@ PROPS = {
         'scenarios': [
             {'name': 'c20_tower', 'shapes': {'quick': c20_shapes('quick'), 'thorough': c20_shapes('thorough')},
              'witnesses': ['admitted', 'rejected', 'inner-error', 'held', 'dropped'], 'selftest': {'quick': 8, 'thorough': 40}},
+        ],
+    },
+    'C11': {
+        'level': 'model_checking',
+        'bounds': 'twin construction: resources A and B carry equal rule pairs (a main rule of the kind under test with threshold 1-2 plus a wide side rule) and receive identical traffic at the same virtual instants; '
+                  'kinds: flow reject on the resource window, flow reject on a private 700 ms window, flow throttling, hotspot QPS reject, hotspot throttling, hotspot concurrency, circuit breaker (error count 1, retry 400 ms); '
+                  '1-2 (quick) / up to 3 traffic steps before and 1-3 after a reload of A as freshly built equal rules with other ids in reversed order, through load-for-resource or through load-all with a new resource C in the same call; '
+                  'symbolic gaps of 0-600 ms between steps, admitted pairs exit, exit with an error (breaker) or stay in flight (concurrency) by symbolic choice; finally A\'s main rule is changed and must decide the very next entry; '
+                  'hash-container iteration orders: at most 1 (thorough: 2) iterations per run deviate from insertion order, every placement explored',
+        'assumptions': ['virtual clock', 'chains of the slots the kind exercises; one shape per tier with the complete global chain', 'warm-up rules are not driven across a reload (their float arithmetic concretises the clock); their reuse logic is the same code path as the other flow rules'],
+        'scenarios': [
+            {'name': 'c11_reload', 'shapes': {'quick': c11_shapes('quick'), 'thorough': c11_shapes('thorough')},
+             'witnesses': ['reloaded', 'blocked', 'changed'], 'selftest': {'quick': 8, 'thorough': 30}},
         ],
     },
     'C15': {
